@@ -174,6 +174,45 @@ func (c *TermCtx) Var(name string, s Sort) *Term {
 	return t
 }
 
+// ub returns an unsigned upper bound of a bit-vector term (cheap, structural, bounded depth).
+func (c *TermCtx) ub(t *Term, d int) uint64 {
+	m := mask(t.sort.W)
+	if t.IsConst() {
+		return t.val
+	}
+	if d == 0 {
+		return m
+	}
+	switch t.op {
+	case OpZExt:
+		return c.ub(t.args[0], d-1)
+	case OpAnd:
+		a, b := c.ub(t.args[0], d-1), c.ub(t.args[1], d-1)
+		if a < b {
+			return a
+		}
+		return b
+	case OpAdd:
+		a, b := c.ub(t.args[0], d-1), c.ub(t.args[1], d-1)
+		if s := a + b; s >= a && s <= m {
+			return s
+		}
+	case OpIte:
+		a, b := c.ub(t.args[1], d-1), c.ub(t.args[2], d-1)
+		if a > b {
+			return a
+		}
+		return b
+	case OpURem:
+		if t.args[1].IsConst() && t.args[1].val > 0 {
+			return t.args[1].val - 1
+		}
+	case OpLShr, OpUDiv:
+		return c.ub(t.args[0], d-1)
+	}
+	return m
+}
+
 // ---- bit-vector construction with simplification ----
 
 func (c *TermCtx) BinBV(op Op, a, b *Term) *Term {
@@ -235,6 +274,14 @@ func (c *TermCtx) BinBV(op Op, a, b *Term) *Term {
 		if b.IsConst() && b.val != 0 && bits.OnesCount64(b.val) == 1 {
 			return c.BinBV(OpAnd, a, c.Const(w, b.val-1))
 		}
+	case OpSRem, OpSDiv:
+		// signed division of a provably non-negative value by a positive constant is unsigned division
+		if b.IsConst() && sext64(b.val, w) > 0 && c.ub(a, 40) < uint64(1)<<uint(w-1) {
+			if op == OpSRem {
+				return c.BinBV(OpURem, a, b)
+			}
+			return c.BinBV(OpUDiv, a, b)
+		}
 	case OpAnd:
 		if a.IsConst() {
 			a, b = b, a
@@ -245,6 +292,10 @@ func (c *TermCtx) BinBV(op Op, a, b *Term) *Term {
 			}
 			if b.val == m {
 				return a
+			}
+			// x & (2^k - 1)  ==>  zero-extended low bits (lets the extract be pushed into sums)
+			if k := bits.Len64(b.val); b.val == mask(k) && k < w && (a.op == OpAdd || a.op == OpSub || a.op == OpMul) {
+				return c.ZExt(c.Extract(a, k-1, 0), w-k)
 			}
 			// and of a zero-extended value with a mask covering it
 			if a.op == OpZExt {
@@ -437,9 +488,20 @@ func (c *TermCtx) Extract(a *Term, hi, lo int) *Term {
 		}
 	case OpAnd, OpOr, OpXor:
 		// push extract through bitwise ops when one side is constant (keeps masks small)
-		if a.args[1].IsConst() {
+		if a.args[1].IsConst() || lo == 0 {
 			return c.BinBV(a.op, c.Extract(a.args[0], hi, lo), c.Extract(a.args[1], hi, lo))
 		}
+	case OpAdd, OpSub, OpMul:
+		// the low bits of a sum/difference/product depend only on the low bits of the operands
+		if lo == 0 {
+			return c.BinBV(a.op, c.Extract(a.args[0], hi, 0), c.Extract(a.args[1], hi, 0))
+		}
+	case OpNeg:
+		if lo == 0 {
+			return c.Neg(c.Extract(a.args[0], hi, 0))
+		}
+	case OpNot:
+		return c.Not(c.Extract(a.args[0], hi, lo))
 	case OpIte:
 		if a.args[1].IsConst() || a.args[2].IsConst() {
 			return c.Ite(a.args[0], c.Extract(a.args[1], hi, lo), c.Extract(a.args[2], hi, lo))
